@@ -257,6 +257,69 @@ func TestVerifC03(t *testing.T) {
 			}
 		}
 	}
+	// (b3) valid signatures whose verification runs into a PARTIAL-sum collision of the double-scalar schedule:
+	// the public key is +-T for an entry T = [t0]G of the comb table, s carries the window that selects T at
+	// row i, and t = r + s = 2^i; R = [s]G + [t]P, e = r - x_R. The accumulator meets its own addend (or its
+	// inverse) in the middle of the loop.
+	for _, row := range []uint{0, 3, 13} {
+		for j := uint(0); j < 3; j++ {
+			for _, w := range []uint{1, 63} {
+				for _, neg := range []bool{false, true} {
+					t0 := new(big.Int)
+					for b := uint(0); b < 6; b++ {
+						if w>>b&1 == 1 {
+							t0.SetBit(t0, int(4+j*14+b*42), 1)
+						}
+					}
+					P := ref.BaseMulFast(t0)
+					if neg {
+						P = P.Neg()
+					}
+					// the accumulator is built k rows earlier by the key's half: P = [+-t0 * 2^-k]G, t = 2^(row+k)
+					k := []uint{1, 2, 40}[(row+j+w)%3]
+					a := ref.ModN(new(big.Int).Mul(t0, ref.InvN(new(big.Int).Lsh(bi(1), k))))
+					P = ref.BaseMulFast(a)
+					if neg {
+						P = P.Neg()
+					}
+					sI := ref.ModN(new(big.Int).Lsh(t0, row))
+					tt := new(big.Int).Lsh(bi(1), row+k)
+					rr := ref.ModN(new(big.Int).Sub(tt, sI))
+					R := ref.BaseMulFast(sI).Add(P.Mul(tt))
+					if R.Inf || rr.Sign() == 0 || sI.Sign() == 0 {
+						continue
+					}
+					e := ref.ModN(new(big.Int).Sub(rr, R.X))
+					add("valid:partial-sum-collision", ref.B32(P.X), ref.B32(P.Y), ref.B32(e), ref.B32(rr), ref.B32(sI))
+				}
+			}
+		}
+	}
+	// (b4) public keys with a coordinate from a rare class - x or y in [n, p) (canonical for the field, not below
+	// the group order), tiny coordinates - under which valid signatures must be accepted: s, t chosen,
+	// R = [s]G + [t]P, r = t - s, e = r - x_R
+	{
+		sps, scls, serr := ref.SpecialPoints()
+		if serr != nil {
+			rep.Inconclusive("special-point fixture: " + serr.Error())
+			return
+		}
+		for i, P := range sps {
+			for q := 0; q < 2; q++ {
+				sI, tt := randScalar(rng), randScalar(rng)
+				rr := ref.ModN(new(big.Int).Sub(tt, sI))
+				R := ref.BaseMulFast(sI).Add(P.Mul(tt))
+				if R.Inf || rr.Sign() == 0 {
+					continue
+				}
+				e := ref.B32(ref.ModN(new(big.Int).Sub(rr, R.X)))
+				add("valid:key-coordinate-class:"+scls[i], ref.B32(P.X), ref.B32(P.Y), e, ref.B32(rr), ref.B32(sI))
+				if q == 0 {
+					add("bitflip:e-under-special-key", ref.B32(P.X), ref.B32(P.Y), flip(e, rng.Intn(256)), ref.B32(rr), ref.B32(sI))
+				}
+			}
+		}
+	}
 	// non-canonical key x0 + p for on-curve x0 anywhere in [0, 2^256 - p) (top word of the encoding FFFFFFFE or FFFFFFFF)
 	{
 		span := new(big.Int).Sub(b256, ref.SM2P)
